@@ -46,7 +46,8 @@ OWNER = ("ns1", {"apiVersion": "v1", "kind": "Parent", "name": "parent", "uid": 
                  "blockOwnerDeletion": True, "controller": False})
 NS = "ns1"
 CLS_WORDS = ["ok", "skip", "depskip", "retry7", "retry30", "permfail", "err"]
-FN_NAMES = ["echo", "bycls", "null", "res"]
+FN_NAMES = ["echo", "bycls", "null", "res", "resl"]
+RES_FNS = ("res", "resl")
 RES_CREATE_DELAY = 11
 
 FUNCTIONS = {
@@ -67,6 +68,19 @@ FUNCTIONS = {
         "create": {"delay": RES_CREATE_DELAY},
         "return": {"got": "=inputs"}}),
 }
+# the same ResourceFunction on another kind and WITHOUT `plural`: the plural is looked up through api.lookup_kind on
+# first use in the process (kind_lookup's cache is reset before every run, so every pass starts cold)
+FUNCTIONS["resl"] = ("rf", {
+    "apiConfig": {"apiVersion": "example.dev/v1", "kind": "Gadget",
+                  "name": "=inputs.name", "namespace": NS, "owned": False},
+    "resource": {"spec": {"tag": "static"}},
+    "create": {"delay": RES_CREATE_DELAY},
+    "return": {"got": "=inputs"}})
+
+
+def stored_gadget(name):
+    return {"apiVersion": "example.dev/v1", "kind": "Gadget", "metadata": {"name": name, "namespace": NS},
+            "spec": {"tag": "static"}}
 
 
 def stored_widget(name):
@@ -74,9 +88,10 @@ def stored_widget(name):
             "spec": {"tag": "static"}}
 
 
-def res_rid(name):
-    return {"apiVersion": "example.dev/v1", "kind": "Widget", "plural": "widgets", "name": name, "readonly": False,
-            "namespace": NS, "resourceFunction": "res"}
+def res_rid(name, fn="res"):
+    kind = "Widget" if fn == "res" else "Gadget"
+    return {"apiVersion": "example.dev/v1", "kind": kind, "plural": kind.lower() + "s", "name": name, "readonly": False,
+            "namespace": NS, "resourceFunction": fn}
 
 
 # --------------------------------------------------------------------------------------------
@@ -361,6 +376,7 @@ class TCluster(Cluster):
     def __init__(self, *a, lat=None, **kw):
         super().__init__(*a, **kw)
         self.lat = lat or {}
+        self.lookup_calls = []
 
     async def _gate(self, method, info):
         i = self.n
@@ -372,6 +388,17 @@ class TCluster(Cluster):
             await asyncio.sleep(d)
         rec["done_at"] = asyncio.get_event_loop().time()
         return None
+
+
+    async def lookup_kind(self, kind: str):
+        base = kind.split(".")[0]
+        rec = {"kind": base, "path": PATH.get()}
+        self.lookup_calls.append(rec)
+        d = self.lat.get((base, "LOOKUP"))
+        if d:
+            await asyncio.sleep(d)
+        rec["done_at"] = asyncio.get_event_loop().time()
+        return await super().lookup_kind(kind)
 
 
 SKIP_RE = re.compile(r"^(Skip \(message=.*\)|User Skip)$", re.S)
@@ -535,6 +562,7 @@ def run(sc, lat=None, virtual=True):
         cluster = TCluster(lat=lat)
         for n in sc.get("existing", []):
             cluster.put(stored_widget(n), plural="widgets")
+            cluster.put(stored_gadget(n), plural="gadgets")
         before = cluster.snapshot()
         rec = Recorder(real)
         entry = rec.install()
@@ -564,6 +592,7 @@ def run(sc, lat=None, virtual=True):
                 "trace": rec.trace,
                 "events": rec.events,
                 "messages": rec.messages,
+                "lookups": [{"kind": c["kind"], "path": [list(p) for p in c["path"]]} for c in cluster.lookup_calls],
                 "calls": calls,
                 "prepared": prepared_info(real),
                 "prepared_subs": {n: prepared_info(real, n) for n in real.subs},
@@ -596,13 +625,13 @@ def fn_sim(name, inputs, existing):
         if c in m:
             return m[c], None, []
         return ("Ok", {"got": copy.deepcopy(inputs), "chk": 0}), None, []
-    if name == "res":
+    if name in RES_FNS:
         n = inputs.get("name") if isinstance(inputs, dict) else None
         if not isinstance(n, str):
             return ("PermFail", None), None, []
         if n in existing:
-            return ("Ok", {"got": copy.deepcopy(inputs)}), res_rid(n), [["GET", n]]
-        return ("Retry", RES_CREATE_DELAY), res_rid(n), [["GET", n], ["POST", n]]
+            return ("Ok", {"got": copy.deepcopy(inputs)}), res_rid(n, name), [["GET", n]]
+        return ("Retry", RES_CREATE_DELAY), res_rid(n, name), [["GET", n], ["POST", n]]
     return ("PermFail", None), None, []
 
 
@@ -914,7 +943,23 @@ def paths_into(v, pre=()):
     return out
 
 
+def steps_like(rng):
+    """a sub-document whose keys look like step references: parent.spec.steps.<label>…, …num_steps.total, …steps_total"""
+    labels = [f"st{i:02d}" for i in range(0, 8)] + ["build", "zz9"]
+    return {l: {"image": f"img-{l}", "flag": rng.random() < 0.3, "lst": [l, 1], "sel": rng.choice(CASES)}
+            for l in rng.sample(labels, rng.choice([2, 3, 5]))}
+
+
 def rand_trigger(rng):
+    t = _rand_trigger(rng)
+    if rng.random() < 0.6:
+        t["spec"]["steps"] = steps_like(rng)
+        t["spec"]["num_steps"] = {"total": len(t["spec"]["steps"])}
+        t["spec"]["steps_total"] = rng.choice([1, 2])
+    return t
+
+
+def _rand_trigger(rng):
     return {"spec": {"y": rng.choice([5, 0, "hello"]), "flag": rng.random() < 0.5, "off": False,
                      "lst": [rand_scalar(rng) for _ in range(rng.choice([0, 1, 2, 3]))],
                      "sel": rng.choice(CASES + ["zzz"]), "lol": [[1, 2], ["x"]]},
@@ -994,7 +1039,7 @@ class Gen:
         rng = self.rng
         subs = list(self.sc.get("subs", {}).keys()) if allow_sub else []
         if allow_res and rng.random() < self.sc.get("res_bias", 0):
-            return ["fn", "res"]
+            return ["fn", rng.choice(["res", "res", "resl"])]
         r = rng.random()
         if r < 0.3:
             return ["fn", "echo"]
@@ -1003,7 +1048,7 @@ class Gen:
         if r < 0.65:
             return ["fn", "null"]
         if r < 0.8 and allow_res:
-            return ["fn", "res"]
+            return ["fn", rng.choice(["res", "res", "resl"])]
         if subs:
             return ["sub", rng.choice(subs)]
         return ["fn", "echo"]
@@ -1034,8 +1079,13 @@ class Gen:
             if r < 0.6:
                 on = ["I", ["sel"]]
                 put("sel", C(rng.choice(CASES + CASES + ["zzz", 7, True])))
-            elif r < 0.8:
+            elif r < 0.7:
                 on = self.ref_expr(done, want="str") or C("one")
+            elif r < 0.8:
+                # an inputs path with a segment named `steps` followed by a label (existing / later / unknown)
+                lab = rng.choice([s_["label"] for s_ in self.steps] + [f"{self.prefix}{len(self.steps) + 2:02d}", "build"])
+                on = ["I", ["cfg", "steps", lab]]
+                put("cfg", C({"steps": {lab: rng.choice(CASES)}, "num_steps": 2}))
             elif r < 1 - 0.05 * self.err:
                 on = C(rng.choice(CASES + ["zzz"]))
             else:
@@ -1045,7 +1095,7 @@ class Gen:
         else:
             step["logic"] = self.target()
             targets = [step["logic"]]
-        tnames = {t[1] for t in targets if t[0] == "fn"}
+        tnames = {("res" if t[1] in RES_FNS else t[1]) for t in targets if t[0] == "fn"}
         need_keys = []
         for t in targets:
             if t[0] == "sub":
